@@ -196,24 +196,27 @@ deriving Repr, DecidableEq
 
 def sDeny : Str := ['d', 'e', 'n', 'y']
 
+/-- one list of a filter (users or groups) as newFilter reads it: the names kept, the regular expression, and whether
+    the list leaves the filter `empty`.
+    * no entry: nothing, the filter stays empty;
+    * exactly one entry: a regular expression when it has a special character (kept only if it compiles), else a name if
+      it is a valid one; `empty` is cleared whatever the entry is;
+    * two or more entries: the valid names; `empty` is cleared once for the whole list (after the loop), also when no
+      entry is a usable name -/
+def filterList (valid : Str → Bool) (compiles : Str → Bool) : List Str → List Str × Option Str × Bool
+  | [] => ([], none, true)
+  | [u] =>
+    if hasSpecial u then ([], if compiles u then some u else none, false)
+    else if valid u then ([u], none, false) else ([], none, false)
+  | us => (us.filter valid, none, false)
+
 /-- newFilter; `compiles` tells whether regexp.Compile accepts the pattern; the type is `deny` under case folding
     (strings.EqualFold) -/
 def newFilter (compiles : Str → Bool) (type : Str) (users groups : List Str) : Filter :=
-  let (ul, urx, e1) : List Str × Option Str × Bool :=
-    match users with
-    | [] => ([], none, true)
-    | [u] =>
-      if hasSpecial u then ([], if compiles u then some u else none, false)
-      else if cfgUserValid u then ([u], none, false) else ([], none, false)
-    | us => (us.filter cfgUserValid, none, false)
-  let (gl, grx, e2) : List Str × Option Str × Bool :=
-    match groups with
-    | [] => ([], none, true)
-    | [g] =>
-      if hasSpecial g then ([], if compiles g then some g else none, false)
-      else if cfgGroupValid g then ([g], none, false) else ([], none, false)
-    | gs => (gs.filter cfgGroupValid, none, false)
-  { allow := decide (lower type ≠ sDeny), empty := e1 && e2, users := ul, groups := gl, userRx := urx, groupRx := grx,
+  { allow := decide (lower type ≠ sDeny),
+    empty := (filterList cfgUserValid compiles users).2.2 && (filterList cfgGroupValid compiles groups).2.2,
+    users := (filterList cfgUserValid compiles users).1, groups := (filterList cfgGroupValid compiles groups).1,
+    userRx := (filterList cfgUserValid compiles users).2.1, groupRx := (filterList cfgGroupValid compiles groups).2.1,
     cfgType := type }
 
 def Filter.filterUser (rx : Str → Str → Bool) (f : Filter) (user : Str) : Bool :=
